@@ -459,3 +459,61 @@ def run(ck, prog):
     _run_pre_dimension(ck, prog)
     from sa import dimension
     dimension.run_rule(ck, prog, set(DIMENSION_FILES))
+
+
+# ------------------------------------------------------------------ running-difference scans telescope
+_run_pre_telescope = run
+
+
+def telescoping_scans(ck, prog):
+    """Column placement: find_new_idxs cuts 0..p into the segments between categorical columns with a `scan` whose state is
+    the previous boundary and whose item is `boundary - state`. Such a running difference covers 0..last boundary exactly
+    (segment lengths telescope) only if the quantity stored as the new state is the very quantity the old state was
+    subtracted from. If they differ by one, every later segment is one column too long and the columns behind the second
+    categorical column are placed one expansion too early."""
+    from sa.prov import Resolver, render
+    rule = "E2-telescope"
+    n = 0
+    for path, b in sorted(prog.bodies.items()):
+        if b.kind == "Closure" or not (b.loc and b.loc[0] == "src/preprocessing/categorical.rs"):
+            continue
+        res = Resolver(b)
+        for bb, t in b.calls():
+            f = t.get("f")
+            if not (f and f["path"].endswith("Iterator::scan") and len(t["args"]) == 3):
+                continue
+            ct = res.operand(t["args"][2])
+            if not (ct[0] == "agg" and ct[1].startswith("closure:")):
+                continue
+            cb = prog.get(ct[1][len("closure:"):])
+            if cb is None or cb.arg_count < 3:
+                continue
+            cr = Resolver(cb)
+            ret = cr.local(0)
+            item = ret[2][0] if ret[0] in ("agg", "variant") and len(ret) > 2 and ret[2] and isinstance(ret[2], tuple) and ret[1].endswith("Some") else None
+            if ret[0] == "variant":
+                item = ret[1]
+            if item is None or not (item[0] == "bin" and item[1] in ("Sub", "SubWithOverflow")):
+                continue
+            minuend, sub = item[2], item[3]
+            if not (sub[0] == "arg" and sub[1] == 2):
+                continue                                   # not `something - state`
+            stores = [cr.rvalue(d.data["r"], 0, ()) for d in cb.partial_defs.get(2, []) if d.kind == "assign" and d.data["p"]["pr"] == ["*"]]
+            if len(stores) != 1:
+                continue
+            n += 1
+            inst = f"{b.name}: the running-difference scan stores what it subtracts from"
+            if render(stores[0]) == render(minuend):
+                ck.ok(rule, inst, cb.path, b.where(bb), f"item = `{render(minuend)}` - state; new state = `{render(stores[0])}`")
+            else:
+                ck.violation(rule, inst, cb.path, b.where(bb),
+                             expected="new state == the minuend of the yielded difference (segment lengths telescope to the last boundary)",
+                             found=f"yields `{render(minuend)} - state` but stores `{render(stores[0])}` as the next state: every segment after "
+                                   f"the first is one element too long, so later columns receive the offset of the previous segment")
+    if n == 0:
+        ck.note("E2-telescope: no running-difference scan in preprocessing/categorical.rs: no instance")
+
+
+def run(ck, prog):
+    _run_pre_telescope(ck, prog)
+    telescoping_scans(ck, prog)
